@@ -113,6 +113,42 @@ func.func public @f({", ".join(a + " : " + t for a, t in zip(args, types))}) {{
 def gen_case(rng, plain=False, fam=None):
     """plain: default (row-major) layouts on every operand and no set-memory-layout"""
     fam = fam or rng.choice(["alu", "alu", "gemm", "gemm", "gemm"])
+    if fam == "alu" and not plain and rng.random() < 0.2:
+        # windows: operands that read / write different positions of one buffer (x[4:20] + x[20:36], the two rows of a matrix, the second
+        # half of a buffer from its first half) next to operands with a buffer of their own
+        n = rng.choice([4, 8, 16])
+        shared = rng.sample(range(3), 2)          # one operand keeps a buffer of its own: the iteration bound is read off its shape
+        two_rows = rng.random() < 0.3
+        xt = f"memref<2x{n + 8}xi64>" if two_rows else f"memref<{n + 24}xi64>"
+        names, types, maps, offs = [], [], [], []
+        for i in range(3):
+            if i in shared:
+                o = rng.choice([o for o in ([0, 4, 8] if two_rows else [0, 4, 16, 20, 24]) if o not in offs or rng.random() < 0.3])
+                offs.append(o)
+                names.append("%x")
+                types.append(xt)
+                maps.append(f"(d0) -> ({rng.choice([0, 1])}, d0 + {o})" if two_rows else f"(d0) -> (d0 + {o})")
+            else:
+                names.append(f"%p{i}")
+                types.append(f"memref<{n}xi64>")
+                maps.append("(d0) -> (d0)")
+        sig = ", ".join(dict.fromkeys(f"{a} : {t}" for a, t in zip(names, types)))
+        text = f"""builtin.module {{
+func.func public @f({sig}) {{
+  "dart.operation"({", ".join(names)}) <{{patterns = [{", ".join(f"affine_map<{m}>" for m in maps)}], accelerator = "snax_alu", operandSegmentSizes = array<i32: 2, 1>}}> ({{
+  ^bb0(%0 : !dart.stream<i64>, %1 : !dart.stream<i64>, %2 : !dart.stream<i64>):
+    %3 = "dart.generic"(%0, %1) <{{library_call = "snax_alu"}}> ({{
+    ^bb1(%x0 : i64, %y0 : i64, %z0 : i64):
+      %4 = kernel.add %x0, %y0 : i64, i64 -> i64
+      dart.yield %4 : i64
+    }}) : (!dart.stream<i64>, !dart.stream<i64>) -> !dart.stream<i64>
+    dart.yield %3 : !dart.stream<i64>
+  }}) : ({", ".join(types)}) -> ()
+  func.return
+}}
+}}
+"""
+        return text, "snax_alu", False
     if fam == "alu":
         n = rng.choice([4, 8, 16, 32, 64])
         rank2 = rng.random() < (0.8 if plain else 0.3)
@@ -285,10 +321,9 @@ def cases_of_region(sr, bounds, pats, types, operands, tmpl, T, accel, name, tex
     for i, (ptr, sp) in enumerate(zip(ptrs, sps)):
         root, off = pointer_root(ptr)
         # the layout cast inserted by set-memory-layout: the memref operand of the schedule is the cast result
-        idx = None
-        for k, o in enumerate(operands):
-            if root is o:
-                idx = k
+        # (operands that share a buffer take its streams in operand order)
+        cands = [k for k, o in enumerate(operands) if root is o]
+        idx = next((k for k in cands if k not in seen_operands), cands[-1] if cands else None)
         if idx is None:
             continue   # synthesised stream (no operand of the scheduled operation)
         if len(sp.upper_bounds.data) > 0 and all(x.data == 0 for x in sp.upper_bounds.data):
@@ -298,7 +333,7 @@ def cases_of_region(sr, bounds, pats, types, operands, tmpl, T, accel, name, tex
         rel = [1 if x else 0 for x in tmpl[idx].pattern.A.any(axis=0).tolist()]
         cases.append({"kind": "stream", "name": f"{name}#operand{idx}@streamer{i}", "bounds": bounds, "T": T,
                       "A": [[int(x) for x in r] for r in pats[idx].A], "b": [int(x) for x in pats[idx].b], "rel": rel,
-                      "L": layout_record(t), "w": t.element_type.size, "base": off,
+                      "L": layout_record(t), "w": t.element_type.size, "base": off, "tb": [int(x) if x else 0 for x in tmpl[idx].bounds],
                       "ub": [x.data for x in sp.upper_bounds.data], "ts": [x.data for x in sp.temporal_strides.data],
                       "ss": [x.data for x in sp.spatial_strides.data], "sb": [int(x) for x in streamers[i].spatial_dims],
                       "text": text, "type": str(t), "pattern": str(sp)})
